@@ -179,6 +179,8 @@ func handPolicies() []*PolicySpec {
 		{Name: "styles", Ops: []Op{{Kind: "elements", Names: []string{"p", "span", "div", "b"}}, {Kind: "styles", Names: []string{"color", "width", "text-align", "background"}, Scope: "G"},
 			{Kind: "styles", Names: []string{"font-family"}, Scope: "E", ScopeEls: []string{"p"}}, {Kind: "styles", Names: []string{"float"}, Enum: []string{"left", "right"}, Scope: "M", ScopeRe: `^(b|i)$`}}},
 		{Name: "rawtext", Ops: []Op{{Kind: "elements", Names: []string{"iframe", "noscript", "xmp", "textarea", "title", "plaintext", "b"}}, {Kind: "comments"}}},
+		{Name: "unsafe-script", Ops: []Op{{Kind: "elements", Names: []string{"script", "style", "b", "p"}}, {Kind: "unsafe", B: true}, {Kind: "comments"},
+			{Kind: "attrs", Names: []string{"type", "src"}, Scope: "E", ScopeEls: []string{"script", "style"}}}},
 		{Name: "unskip", Ops: []Op{{Kind: "elements", Names: []string{"script", "style", "b"}}, {Kind: "keep", Names: []string{"script", "style", "object"}}, {Kind: "elementsmatching", Re: `^s(cript|tyle)$`}}},
 	}
 }
